@@ -297,6 +297,13 @@ def oracles_nmea(line, real_out):
 POOL = [0xb5, 0x62, 0x24, 0x2a, 0x00, 0xff]
 
 
+def pick_cid(rng):
+    """a class/id of the pool, or the class of one pool entry with the id of another (never itself in the pool)"""
+    if rng.random() < 0.7:
+        return rng.choice(CIDS)
+    return (rng.choice(CIDS)[0], rng.choice(CIDS)[1])
+
+
 def rand_payload(rng, n):
     mode = rng.random()
     if mode < 0.15:
@@ -337,7 +344,7 @@ def grammar_stream(rng, allow_long=False):
     for _ in range(rng.randrange(1, 6)):
         if rng.random() < 0.55:
             out += gap(rng)
-        c, i = rng.choice(CIDS)
+        c, i = pick_cid(rng)
         n = rand_len(rng)
         if n > MAXLEN and not allow_long:
             n = rng.randrange(0, 1001)
@@ -362,7 +369,7 @@ def wild_stream(rng):
             out += bytes(rng.choice([0xb5, 0x62, 0, 0x24]) for _ in range(rng.randrange(0, 5)))
         elif k < 0.35:
             out += nmea_sentence(b'GPRMC,1') + b'\r\n'
-        c, i = rng.choice(CIDS)
+        c, i = pick_cid(rng)
         f = bytearray(frame(c, i, rand_payload(rng, rand_len(rng))))
         r = rng.random()
         if r < 0.2:
